@@ -30,4 +30,21 @@ def obligations(tier):
                   descr='audit through the real code (finite, exhaustive over table keys): every month key x day key of the wired English maps (names, abbreviations, 10, 05, ...) '
                         'without a year decodes to that month and day in both candidates (the symbolic obligation replaces the tables by one-entry tables)',
                   bounds='3 870 key pairs', encodes=['recognizers_date_time.date_time.base_date:BaseDateParser.match_to_date']))
+    obs.append(Ob('O9.4-witness-written-day', 'fn', 'harness.witness:api_witness', slices=[{'w': 'F50'}], timeout=t, finding='F50', descr='API witness of the repaired F50 (written-out day: past candidate in the next year): a reappearance is a violation'))
+    from props import _corpus
+    import json as _json
+    slices, counts, _ = _corpus.slices(tier, 'pair', tag='pair', quick_step=5, quick_cap=12)
+    obs.append(Ob('O9.4-corpus-pairs', 'sx', 'harness.apidt:h_wellformed', twin=None, slices=slices, timeout=90 if tier == 'quick' else 240,
+                  descr='API level, symbolic reference datetime, every culture: on the DateTimeModel Specs inputs that yield two candidates under an open TIMEX XXXX-MM-DD / XXXX-WXX-d (inputs only; expected outputs not consulted), '
+                        'for EVERY reference datetime the two values are the latest occurrence before the reference day and the earliest on or after it (same month/day in consecutive years, neighbouring leap years for 29 February, '
+                        'same weekday 7 days apart)',
+                  bounds=_corpus.REF + ', minus region KF-C09-TOD (own day with a non-zero time of day: "before" checked as "not after"); inputs per culture %s' % _json.dumps(counts),
+                  encodes=_corpus.ENC + [B + 'chinese.date_parser:ChineseDateParser.parse_implicit_date', B + 'chinese.date_parser:ChineseDateParser.match_to_date'], stubs=_corpus.STUBS))
+    ZD = 'recognizers_date_time.date_time.chinese.date_parser:ChineseDateParser.'
+    obs.append(Ob('O9.5-chinese-noyear', 'sx', 'harness.dateparse_zh:h_zh_noyear', slices=[{'m': m} for m in range(1, 13)], timeout=t,
+                  descr='Chinese month+day without a year through the real ChineseDateParser.match_to_date: two candidates around the reference day, open-year TIMEX',
+                  bounds='day 1..last day of the slice month (29 Feb excluded), reference every minute 1950..2090 minus region KF-C09-TOD', encodes=[ZD + 'match_to_date', B + 'utilities:DateUtils.generate_dates']))
+    obs.append(Ob('O9.5-chinese-weekday', 'sx', 'harness.dateparse_zh:h_zh_weekday', slices=[{'wd': w} for w in range(1, 8)], timeout=t,
+                  descr='Chinese bare weekday through the Chinese parser\'s own weekday branch of parse_implicit_date: candidates 7 days apart around the reference day, TIMEX XXXX-WXX-d',
+                  bounds='reference every minute 1950..2090 minus region KF-C09-TOD; one slice per weekday', encodes=[ZD + 'parse_implicit_date', B + 'utilities:DateUtils.this', B + 'utilities:DateUtils.next']))
     return obs
